@@ -445,6 +445,8 @@ class Enum:
                         return [(s1, ('subclass',))]
                     if b[0] == STREAM and (e.attr in ENC or e.attr in DEC or e.attr in ZERO or e.attr.endswith('_chunks') or e.attr == 'set_bit'):
                         return [(s1, ('bound', b, e.attr))]
+                    if b[0] == SUB:
+                        return [(s1, (OPAQUE, 'subcontent'))]       # what a sub-encoder holds (its value, its number of bits)
                     return [(s1, opq)]
                 return [(s1, (OPAQUE, b[1] if b[0] == OPAQUE else opq[1]))]
             return self.bind(self.ev(e.value, st), f)
@@ -652,6 +654,9 @@ class Enum:
                 if name == 'align' and self.noalign:
                     return [(st, NONE)]
                 t = self.prim(table[name], pos, kws, call)
+                if self.side == 'enc' and t[0] == 'FIELD' and any(v == (OPAQUE, 'subcontent') for v in pos):
+                    # the accumulated content of a sub-encoder appended as one field: the body of an open type (same as `encoder += sub`)
+                    t = ('OPENBODY',)
                 if t[0] == 'BIT' and self.side == 'dec':
                     self.uid += 1
                     return [(self.tok(st, ('BIT', '*', self.uid)), (BIT, self.uid, False))]
@@ -673,12 +678,20 @@ class Enum:
         if recv[0] == SUB:
             return [(st, (OPAQUE, 'pos'))]
         if recv[0] == SELF:
-            if has_stream or any(v[0] == SUB for v in avs):
+            builds_sub = False
+            if not has_stream and self.side == 'enc':
+                # a helper of the object that creates sub-encoders itself (Encoder() / encoder.__class__()) and hands them back
+                r0 = find_method(self.cls, name)
+                if r0 is not None:
+                    builds_sub = any(isinstance(n_, ast.Call) and ((isinstance(n_.func, ast.Name) and n_.func.id == 'Encoder') or
+                                                                  (isinstance(n_.func, ast.Attribute) and n_.func.attr == '__class__'))
+                                     for n_ in ast.walk(r0[1]))
+            if has_stream or any(v[0] == SUB for v in avs) or builds_sub:
                 r = find_method(self.cls, name)
                 if r is None:
                     self.notes.add('unresolved self.%s' % name)
                     return [(self.tok(st, ('UNRESOLVED', name)), opq)]
-                if not has_stream:
+                if not has_stream and not builds_sub:
                     return [(st, opq)]      # works on a sub-encoder only: its content is spliced in by `encoder += sub`
                 return self.inline_fn(r[0], r[1], pos, kws, st)
             if all(is_cfgish(v) for v in avs) and not call.keywords:
@@ -792,6 +805,21 @@ class Enum:
                 cenv[p] = self.opq
         if self_is_stream:
             cenv[f.args.args[0].arg] = (STREAM,)
+            if self.side == 'enc':
+                # a parameter of an Encoder method on which the Encoder's own attributes / methods are used (other.value, other.number_of_bits,
+                # other.number_of_bytes()) is another encoder: a sub-encoder whose content is spliced in
+                own = set()
+                for k_ in (c.mro() if hasattr(c, 'mro') else []):
+                    own |= set(k_.methods)
+                    init_ = k_.methods.get('__init__')
+                    if init_ is not None:
+                        own |= {t_.attr for n_ in ast.walk(init_) if isinstance(n_, ast.Assign) for t_ in n_.targets
+                                if isinstance(t_, ast.Attribute) and isinstance(t_.value, ast.Name) and t_.value.id == 'self'}
+                for p_ in params:
+                    if cenv.get(p_, self.opq)[0] == OPAQUE:
+                        used = {n_.attr for n_ in ast.walk(f) if isinstance(n_, ast.Attribute) and isinstance(n_.value, ast.Name) and n_.value.id == p_}
+                        if used and used <= own and len(used & own) >= 1 and (used & {'value', 'number_of_bits', 'number_of_bytes', 'chunks', 'chunks_number_of_bits'}):
+                            cenv[p_] = (SUB,)
         if f.args.vararg is not None:
             cenv[f.args.vararg.arg] = self.opq
         for a, d in zip(f.args.kwonlyargs, f.args.kw_defaults):
